@@ -55,6 +55,31 @@ EdgesC(e) == LET N == Pow2(e.d)
         <<"corners", \A d \in Cardinals : ToSet(e.corner[d]) = corners[d]>>,
         <<"internal_corner", \A d \in Cardinals : e.icorner[d] = InternalCorner(c, M, d)>>,
         <<"internal_part", \A o \in Ordinals : IsSetSeq(e.ipart[o], InternalSide(c, M, o))>> >>
+(* C14 at large delta_depth (up to 2^22 cells per side): the lists are too long to be traced, the harness samples them.
+   Position k (1-based) of the walk S -> E -> N -> W, in closed form (same definition as HpxGeo!InternalEdgeWalk). *)
+WalkAt(c, M, k) == LET q == (k - 1) \div (M - 1)
+                       r == (k - 1) % (M - 1)
+                   IN CASE q = 0 -> Sub(c, M, r, 0) [] q = 1 -> Sub(c, M, M - 1, r)
+                        [] q = 2 -> Sub(c, M, M - 1 - r, M - 1) [] OTHER -> Sub(c, M, 0, M - 1 - r)
+OnSide(c, M, o, y) == IsDesc(c, M, y) /\ (CASE o = "SE" -> y[3] = c[3] * M [] o = "SW" -> y[2] = c[2] * M
+                                            [] o = "NE" -> y[2] = c[2] * M + M - 1 [] o = "NW" -> y[3] = c[3] * M + M - 1)
+EdgesBigC(e) == LET N == Pow2(e.d)
+                    M == Pow2(e.dd)
+                    c == e.c
+  IN << <<"panic", e.p = 0>>, <<"free", e.free = 1>>,
+        (* length, no duplicate, sorted variant = the same cells in increasing order (counted by the harness over the whole list) *)
+        <<"internal_walk", e.ie_len = 4 * M - 4 /\ e.ie_dup = 0 /\ e.ie_nonadj = 0
+                           /\ \A k \in 1..Len(e.ie_s) : e.ie_s[k][2] = WalkAt(c, M, e.ie_s[k][1])>>,
+        <<"internal_sorted", e.ies_ok = 1>>,
+        (* external edge: 4 M cells + one per existing corner, no duplicate, none a descendant; every sampled cell of side o is
+           the neighbour in direction o of a border descendant of side o (across a base-cell seam the direction seen from the
+           outer cell is not the opposite one) *)
+        <<"external", e.ee_len = 4 * M + Cardinality({d \in Cardinals : NeighAt(N, c, d) # {}}) /\ e.ee_dup = 0 /\ e.ees_ok = 1>>,
+        <<"sides", \A o \in Ordinals : e.side_len[o] = M /\ \A k \in 1..Len(e.side_s[o]) :
+                      LET x == e.side_s[o][k] IN ~IsDesc(c, M, x) /\ \E w \in MainWinds : \E y \in NeighAt(N * M, x, w) :
+                                                     OnSide(c, M, o, y) /\ x \in NeighAt(N * M, y, o)>>,
+        <<"corners", \A d \in Cardinals : ToSet(e.corner[d]) = ExternalCorner(N, c, M, d)>>,
+        <<"internal_corner", \A d \in Cardinals : e.icorner[d] = InternalCorner(c, M, d)>> >>
 (* ---- RING scheme (C10, C11) ---- *)
 ToRingC(e) == LET N == Pow2(e.d) IN
   << <<"panic", e.p = 0>>, <<"rank", e.r = ToRing(N, e.c)>>, <<"roundtrip", e.back = e.c>> >>
@@ -158,6 +183,7 @@ Clauses(e) == CASE e.ev = "hash" -> HashC(e)
                 [] e.ev = "neigh" -> NeighC(e)
                 [] e.ev = "neigh_bad" -> NeighBadC(e)
                 [] e.ev = "edges" -> EdgesC(e)
+                [] e.ev = "edges_big" -> EdgesBigC(e)
                 [] e.ev = "to_ring" -> ToRingC(e)
                 [] e.ev = "from_ring" -> FromRingC(e)
                 [] e.ev = "ring_nested_centre" -> RingNestedCentreC(e)
